@@ -244,6 +244,40 @@ def gen_cases(ctx):
             items.append({"seed": bytes(rng.getrandbits(8) for _ in range(16)), "lv": lv, "v6": bool(k & 1)})
         conc.append({"op": "conc", "cfg": cfg, "items": items, "workers": workers,
                      "rounds": 120 if quick else 600, "tag": "conc"})
+    # 6. histories on ONE shared selector: mixed selections (libver 0-4, both families, both entry points) against one
+    #    configuration whose groups are NOT in ascending weight order and include a weighted group without subnets;
+    #    each op is also run on a fresh selector and on the shared one again; the configuration is dumped after every op
+    for d in corpus + replay_cases(ctx.replay):             # replayed histories
+        if d.get("op") == "hist":
+            cfg = from_json({"op": "select", "cfg": d.get("cfg"), "lv": 0, "v6": False})["cfg"]
+            items = [{"op": it.get("op") or "select", "seed": bytes.fromhex(it["seed"]), "lv": it.get("lv", 4),
+                      "v6": it.get("v6", False), "filter": it.get("filter") or "none", "weighted": it.get("weighted", True)}
+                     for it in d["items"]]
+            conc.append({"op": "hist", "cfg": cfg, "items": items, "tag": "hist"})
+    for k in range(6 if quick else 60):
+        cfg = rand_cfg(rng, clean=True)
+        while len(cfg["groups"]) < 3:
+            cfg["groups"].append(rand_group(rng, clean=True))
+        ws = sorted({rng.randrange(1, 50) for _ in range(len(cfg["groups"]) + 3)}, reverse=True)
+        for g, w in zip(cfg["groups"], ws):                  # strictly descending weights
+            g["w"] = w
+            g["nets"] = g["nets"] + [rand_net(rng, 4), rand_net(rng, 6)]
+        hole = {"w": rng.randrange(1, 50), "nets": None, "rp": rng.choice([True, False])}
+        cfg["groups"].insert(rng.randrange(0, len(cfg["groups"])), hole)     # weighted, no subnets, not last
+        if k % 3 == 2:
+            cfg["groups"].insert(1, {"w": 7, "nets": [], "rp": False})       # empty, non-nil: an error when chosen
+        items = []
+        for j in range(14):
+            seed = bytes(rng.getrandbits(8) for _ in range(16))
+            if j % 5 == 3:
+                items.append({"op": "selphantom", "seed": seed, "lv": 4, "v6": False,
+                              "filter": rng.choice(["none", "v4", "v6"]), "weighted": rng.random() < 0.5})
+            else:
+                items.append({"op": "select", "seed": seed, "lv": [2, 0, 4, 1, 3, 2, 1][j % 7], "v6": bool(j & 1),
+                              "filter": "none", "weighted": True})
+        # the first selections repeated at the end of the history
+        items += [dict(items[0]), dict(items[1]), dict(items[3])]
+        conc.append({"op": "hist", "cfg": cfg, "items": items, "tag": "hist"})
     return cases, exh, conc
 
 
@@ -251,6 +285,10 @@ def to_json(c):
     if c["op"] == "conc":
         return {"op": "conc", "cfg": cfg_json(c["cfg"]), "workers": c["workers"], "rounds": c["rounds"],
                 "items": [{"seed": it["seed"].hex(), "lv": it["lv"], "v6": it["v6"]} for it in c["items"]]}
+    if c["op"] == "hist":
+        return {"op": "hist", "cfg": cfg_json(c["cfg"]),
+                "items": [{"op": it["op"], "seed": it["seed"].hex(), "lv": it["lv"], "v6": it["v6"], "filter": it["filter"],
+                           "weighted": it["weighted"]} for it in c["items"]]}
     d = {"op": c["op"], "seed": c["seed"].hex(), "cfg": cfg_json(c["cfg"])}
     if c["op"] == "select":
         d.update(lv=c["lv"], v6=c["v6"])
@@ -419,8 +457,35 @@ def run(ctx):
                      "%d of %d addresses of %s were never selected although crafted seeds exist for each"
                      % (len(missing), len(allips), e["target"]["s"]),
                      {"target": e["target"]["s"], "lv": e["lv"], "missing": sorted(missing)[:5]})
+    # histories on one shared selector: repeating a selection never changes any result, nor the configuration
+    def same(a, b):
+        return (a["out"], a["ip"], a["rp"]) == (b["out"], b["ip"], b["rp"])
+
+    for c, r in zip(conc, res[len(cases):]):
+        if c["op"] != "hist":
+            continue
+        ctx.count(("hist", to_json(c)), nontrivial=True, kind="hist/%s" % ("config-unchanged" if not r.get("cfg_changed") else "config-changed"))
+        if r.get("cfg_changed"):
+            ctx.fail("purity/configuration-changed-by-a-selection", "a selection changed the generation's configured subnets "
+                     "held by the shared selector: " + r["cfg_changed"][:700], brief(c))
+        for i, it in enumerate(c["items"]):
+            sc = dict(it, cfg=c["cfg"], tag="hist-fresh")
+            oracle(ctx, sc, r["serial"][i])
+            tk = "tag:hist-fresh/%s" % r["serial"][i]["out"]
+            ctx.cov["histogram"][tk] = ctx.cov["histogram"].get(tk, 0) + 1
+            terms.append(g_case(sc, r["serial"][i]))
+            tcases.append((sc, r["serial"][i]))
+            for which, lst in (("first run on the shared selector", r["first"]), ("repeat on the shared selector", r["again"])):
+                if not same(lst[i], r["serial"][i]):
+                    ctx.fail("purity/result-depends-on-history", "op %d of a history (%s, libver %d, seed %s): on a fresh selector "
+                             "%s/%s/%s, %s %s/%s/%s" % (i, it["op"], it["lv"], it["seed"].hex(), r["serial"][i]["out"],
+                                                        r["serial"][i]["ip"], r["serial"][i]["rp"], which, lst[i]["out"],
+                                                        lst[i]["ip"], lst[i]["rp"]), brief(c))
+                    break
     # concurrency
     for c, r in zip(conc, res[len(cases):]):
+        if c["op"] != "conc":
+            continue
         ctx.count(("conc", c["workers"], r["runs"]), nontrivial=True, kind="conc/%d" % c["workers"])
         for it, sr in zip(c["items"], r["serial"]):
             sc = {"op": "select", "seed": it["seed"], "cfg": c["cfg"], "lv": it["lv"], "v6": it["v6"], "tag": "conc-serial"}
@@ -437,7 +502,7 @@ def run(ctx):
     ctx.require_kinds(["select/lv0/ok", "select/lv1/ok", "select/lv2/ok", "select/lv3/ok", "select/lv4/ok",
                        "select/lv0/err", "select/lv1/err", "select/lv2/err", "selphantom/lv-/ok", "selphantom/lv-/err",
                        "tag:leading-zero/ok", "tag:zero-weight/err", "tag:unknown-gen/err", "tag:exh/ok",
-                       "exhaustive-offsets/all-hit", "conc/2", "conc/32"])
+                       "exhaustive-offsets/all-hit", "conc/2", "conc/32", "hist/config-unchanged", "tag:hist-fresh/ok"])
     mm = ctx.coq_mismatches("sel", HEADER, terms, "chk", shard=max(8, (len(terms) + 15) // 16), need_vo=["C14/Run.vo"])
     if mm:
         ctx.cov["mismatches"] += len(mm)
